@@ -434,6 +434,7 @@ class ExprMixin:
 
     def contains(self, l, r, p, line):
         if isinstance(r, listsets.VSet):
+            if isinstance(l, VRef): return z3.Select(r.t, l.t)
             t, _ = self.num(l, 'in', p, line); return z3.Select(r.t, t)
         if isinstance(r, VCList):
             ts = [self.equal(l, x, p, line) for x in r.items]
